@@ -8,6 +8,8 @@ import PcVerif.Model.SamiTime
 import PcVerif.Model.MicroDvd
 import PcVerif.Lemmas.StrLemmas
 import PcVerif.Lemmas.SamiLemmas
+import PcVerif.Lemmas.SrtDocLemmas
+import PcVerif.Lemmas.VttDocLemmas
 namespace PcVerif.Props.C01
 open PcVerif PcVerif.Str
 
@@ -179,5 +181,121 @@ theorem sami_tail_pinned : Generated.samiTailMs = 4000 := by decide
     language with a different time; the cues of the last sync last four seconds -/
 theorem sami_backfill (ps : List (Nat × Bool)) (hs : Sami.SortedFrom 0 ps) :
     Sami.translateLang ps = Sami.specLang ps := Sami.sami_backfill ps hs
+
+/-! ### SRT, document level -/
+
+/-- `hh:mm:ss,fff` as written, and the microseconds it denotes -/
+def srtStamp (h m s f : Str) : Str := h ++ ':' :: m ++ ':' :: s ++ ',' :: f
+def srtStampVal (h m s f : Str) : Nat :=
+  natOfDigits h * 3600000000 + natOfDigits m * 60000000 + natOfDigits s * 1000000 + natOfDigits f * 1000
+
+private theorem srtStamp_shape (h m s f : Str) (hh : Digits h) (hf : Digits f) :
+    ∃ c d mid, srtStamp h m s f = c :: (mid ++ [d]) ∧ isAsciiDigit c = true ∧ isAsciiDigit d = true := by
+  obtain ⟨c, t, rfl, hc⟩ := Srt.digits_head h hh
+  obtain ⟨u, d, rfl, hd⟩ := Srt.digits_last f hf
+  exact ⟨c, d, t ++ ':' :: m ++ ':' :: s ++ ',' :: u, by simp [srtStamp], hc, hd⟩
+
+private theorem srtStamp_no_dash (h m s f : Str) (hh : Digits h) (hm : Digits m) (hs : Digits s) (hf : Digits f) :
+    '-' ∉ srtStamp h m s f := by
+  unfold srtStamp
+  simp only [List.mem_append, List.mem_cons, not_or]
+  exact ⟨⟨⟨Srt.digits_no_dash h hh, by decide, Srt.digits_no_dash m hm⟩, by decide, Srt.digits_no_dash s hs⟩, by decide,
+    Srt.digits_no_dash f hf⟩
+
+/-- a cue block in the usual spelling — decimal index, `hh:mm:ss,fff --> hh:mm:ss,fff` with digit strings of any
+    width, at least one text line, no blank text line — is well formed and denotes the instants of its stamps -/
+theorem srt_block_wf (idx h1 m1 s1 f1 h2 m2 s2 f2 : Str) (texts : List Str) (gap : Nat)
+    (hi : Digits idx) (a1 : Digits h1) (a2 : Digits m1) (a3 : Digits s1) (a4 : Digits f1)
+    (b1 : Digits h2) (b2 : Digits m2) (b3 : Digits s2) (b4 : Digits f2)
+    (hne : texts ≠ []) (hnb : ∀ t ∈ texts, Srt.blank t = false) :
+    Srt.Block.WF ⟨idx, srtStamp h1 m1 s1 f1, srtStamp h2 m2 s2 f2, texts, gap⟩
+      (srtStampVal h1 m1 s1 f1) (srtStampVal h2 m2 s2 f2) := by
+  obtain ⟨c, d, mid, e1, hc, hd⟩ := srtStamp_shape h1 m1 s1 f1 a1 a4
+  obtain ⟨c', d', mid', e2, hc', hd'⟩ := srtStamp_shape h2 m2 s2 f2 b1 b4
+  refine ⟨(Srt.digits_index_line idx hi).1, (Srt.digits_index_line idx hi).2, srtStamp_no_dash _ _ _ _ a1 a2 a3 a4,
+    srtStamp_no_dash _ _ _ _ b1 b2 b3 b4, ?_, ?_, hne, hnb⟩
+  · show Srt.toMicro (Srt.stripTiming (srtStamp h1 m1 s1 f1 ++ [' '])) = _
+    rw [e1, (Srt.stripTiming_between_digits c d mid hc hd).1, ← e1]
+    exact srt_stamp_denotes h1 m1 s1 f1 a1 a2 a3 a4
+  · show Srt.toMicro (Srt.stripTiming (' ' :: srtStamp h2 m2 s2 f2)) = _
+    rw [e2, (Srt.stripTiming_between_digits c' d' mid' hc' hd').2, ← e2]
+    exact srt_stamp_denotes h2 m2 s2 f2 b1 b2 b3 b4
+
+/-- **C01 (SRT, whole documents).** for ANY number of well-formed cue blocks — each line ended by a line feed, one or
+    more empty lines between blocks, any number (also none) after the last — `SRTReader.read` returns exactly one
+    caption per block, in order, whose start and end are the instants the block's two stamps denote and whose nodes
+    are the block's text lines separated by breaks.  No cue is created, lost, split or merged. -/
+theorem srt_doc_cues (bs : List Srt.TBlock) (hne : bs ≠ []) (hwf : Srt.AllWF bs)
+    (hnb : ∀ l ∈ Srt.docLines (bs.map (·.1)), Srt.NoBreak l) :
+    Srt.read ((Srt.docLines (bs.map (·.1))).flatMap (· ++ ['\n'])) = .ok (Srt.caps bs) :=
+  Srt.srt_document bs hne hwf hnb
+
+/-- the hypotheses are satisfiable: a two-block document (second block: hour field of three digits, two text lines,
+    no blank line at the end) is read as stated -/
+example :
+    Srt.read "1\n00:00:01,000 --> 00:00:02,500\nhello\n\n\n2\n100:00:03,000 --> 100:00:04,000\na - b\nc\n".toList
+      = .ok [⟨1000000, 2500000, [.text "hello".toList]⟩,
+             ⟨360003000000, 360004000000, [.text "a - b".toList, .brk, .text "c".toList]⟩] := by decide
+
+/-! ### WebVTT, document level -/
+
+/-- `h+:mm:ss.fff` as written, and the microseconds it denotes -/
+def vttStamp (h m s f : Str) : Str := h ++ ':' :: m ++ ':' :: s ++ '.' :: f
+def vttStampVal (h m s f : Str) : Nat := (natOfDigits h * 3600 + natOfDigits m * 60 + natOfDigits s) * 1000000 + natOfDigits f * 1000
+
+private theorem digits_noSpace (s : Str) (h : Digits s) : ∀ c ∈ s, isSpace c = false :=
+  fun c hc => (Srt.asciiDigit_facts c (allAsciiDigits_mem s h.2 c hc)).2.1
+
+private theorem vttStamp_noSpace (h m s f : Str) (hh : Digits h) (hm : Digits m) (hs : Digits s) (hf : Digits f) :
+    ∀ c ∈ vttStamp h m s f, isSpace c = false := by
+  intro c hc
+  unfold vttStamp at hc
+  simp only [List.mem_append, List.mem_cons] at hc
+  rcases hc with ((hc | hc | hc) | hc | hc) | hc | hc
+  · exact digits_noSpace h hh c hc
+  · subst hc; decide
+  · exact digits_noSpace m hm c hc
+  · subst hc; decide
+  · exact digits_noSpace s hs c hc
+  · subst hc; decide
+  · exact digits_noSpace f hf c hc
+
+private theorem vttStamp_ne_nil (h m s f : Str) (hh : Digits h) : vttStamp h m s f ≠ [] := by
+  obtain ⟨c, t, rfl, _⟩ := Srt.digits_head h hh
+  simp [vttStamp]
+
+/-- a cue block in the usual spelling — optional identifier lines, `h+:mm:ss.fff --> h+:mm:ss.fff` (hours of any
+    width), at least one text line, no empty text line, no `-->` in identifiers or text — is well formed for the
+    default reader options and denotes the instants of its two stamps -/
+theorem vtt_block_wf (ids texts : List Str) (gap : Nat) (h1 m1 s1 f1 h2 m2 s2 f2 : Str)
+    (a1 : Digits h1) (a2 : D2 m1) (a3 : D2 s1) (a4 : D3 f1) (b1 : Digits h2) (b2 : D2 m2) (b3 : D2 s2) (b4 : D3 f2)
+    (hids : ∀ l ∈ ids, l ≠ [] ∧ Str.contains Vtt.arrow l = false)
+    (hne : texts ≠ []) (htx : ∀ t ∈ texts, t ≠ [] ∧ Str.contains Vtt.arrow t = false) :
+    Vtt.VBlock.WF {} ⟨ids, vttStamp h1 m1 s1 f1 ++ " --> ".toList ++ vttStamp h2 m2 s2 f2, texts, gap⟩
+      (vttStampVal h1 m1 s1 f1 : Nat) (vttStampVal h2 m2 s2 f2 : Nat) none := by
+  refine ⟨hids, Vtt.timing_has_arrow _ _, ?_, hne, htx⟩
+  intro last
+  have p1 := vtt_stamp_hms h1 m1 s1 f1 [] a1 a2 a3 a4
+  have p2 := vtt_stamp_hms h2 m2 s2 f2 [] b1 b2 b3 b4
+  simp only [List.append_nil] at p1 p2
+  exact Vtt.parseTimingLine_plain _ _ _ _ last (vttStamp_ne_nil _ _ _ _ a1) (vttStamp_ne_nil _ _ _ _ b1)
+    (vttStamp_noSpace _ _ _ _ a1 a2.1 a3.1 a4.1) (vttStamp_noSpace _ _ _ _ b1 b2.1 b3.1 b4.1) p1 p2
+
+/-- **C01 (WebVTT, whole documents).** a header without `-->` (the `WEBVTT` line, an empty line, …) followed by ANY
+    number of well-formed cue blocks — each line ended by a line feed, one or more empty lines between blocks, any
+    number after the last — is read as exactly one cue per block, in order, starting and ending at the instants of its
+    timing line, its text lines decoded and separated by breaks.  No cue is created, lost, split or merged. -/
+theorem vtt_doc_cues (o : Vtt.Opts) (header : List Str) (bs : List Vtt.VT) (hne : bs ≠ [])
+    (hh : ∀ l ∈ header, Str.contains Vtt.arrow l = false)
+    (hwf : ∀ b ∈ bs, b.1.WF o b.2.1 b.2.2.1 b.2.2.2)
+    (hnb : ∀ l ∈ header ++ Vtt.vdocLines (bs.map (·.1)), Srt.NoBreak l) :
+    Vtt.read o ((header ++ Vtt.vdocLines (bs.map (·.1))).flatMap (· ++ ['\n'])) = .ok (Vtt.vcues bs) :=
+  Vtt.read_doc o _ header bs hne hh hwf (Srt.splitlines_terminated _ hnb)
+
+/-- the hypotheses are satisfiable: header, identifier line, hours of one and of three digits, two blocks -/
+example :
+    Vtt.read {} "WEBVTT\n\nintro\n0:00:01.000 --> 0:00:02.500\nhello\nworld\n\n\n100:00:03.000 --> 100:00:04.000\n&lt;x\n".toList
+      = .ok [⟨1000000, 2500000, [.text "hello".toList, .brk, .text "world".toList], none⟩,
+             ⟨360003000000, 360004000000, [.text "<x".toList], none⟩] := by decide
 
 end PcVerif.Props.C01
